@@ -178,6 +178,59 @@ def firstDup : (seen : List Bytes) → (i : Nat) → List Bytes → Option Nat
   | _, _, [] => none
   | seen, i, k :: ks => if seen.contains (toBytes48 k) then some i else firstDup (toBytes48 k :: seen) (i + 1) ks
 
+/-- `preCheck` of every position -/
+def preCheckAll {α : Type} (cfg : Config) (client op : String) (items : List (Addr × α)) :
+    List (Except Res (Bytes × α)) :=
+  items.map (fun it => match preCheck cfg client it.1 op with
+    | .error r => .error r
+    | .ok acct => .ok (acct.pubkey, it.2))
+
+def isErr {α : Type} : Except Res α → Bool
+  | .error _ => true
+  | .ok _ => false
+
+/-- positions reported when some preCheck failed: its result there, UNKNOWN elsewhere -/
+def preCheckPositions {α : Type} (pcs : List (Except Res α)) : List Pos :=
+  pcs.map (fun p => match p with | .error r => ⟨r, none⟩ | .ok _ => ⟨.unknown, none⟩)
+
+def okItems {α : Type} (pcs : List (Except Res α)) : List α :=
+  pcs.filterMap (fun p => match p with | .ok a => some a | .error _ => none)
+
+/-- sign the approved positions of a batch: (response position, released entry) -/
+def signEvs (signFails : List Nat) : Nat → List (Bytes × AttData × Verdict) →
+    List (Pos × Option (Bytes × AttData))
+  | _, [] => []
+  | i, (k, d, v) :: rest =>
+    (match v with
+     | .approved =>
+       match d.signingRoot with
+       | none => (⟨.failed, none⟩, none)
+       | some root => if signFails.contains i then (⟨.failed, none⟩, none)
+                      else (⟨.succeeded, some root⟩, some (k, d))
+     | v => (⟨verdictRes v, none⟩, none)) :: signEvs signFails (i + 1) rest
+
+/-- the rules call for a batch whose accounts are resolved and whose keys are distinct
+    (`RunRules` → `runRules`: fast path for more than one entry, single path for one);
+    `none` = every position FAILED -/
+def rulesKeyed (db : Db) (keyed : List (Bytes × AttData)) (f : Faults) :
+    Option (List (Bytes × AttData × Verdict)) × Db :=
+  match keyed with
+  | [(k, d)] => let r := onAttest db k d.req f; (some [(k, d, r.1)], r.2)
+  | _ => onAttestBatch AttData.req db keyed f
+
+/-- signing after the rules call -/
+def finishKeyed (s : Inst) (keyed : List (Bytes × AttData)) (signFails : List Nat)
+    (evs? : Option (List (Bytes × AttData × Verdict))) (db' : Db) : Inst × List Pos :=
+  match evs? with
+  | none => ({ s with db := db' }, keyed.map (fun _ => ⟨.failed, none⟩))
+  | some evs =>
+    ({ s with db := db', attLog := s.attLog ++ (signEvs signFails 0 evs).filterMap (·.2) },
+     (signEvs signFails 0 evs).map (·.1))
+
+def attestKeyed (s : Inst) (keyed : List (Bytes × AttData)) (f : Faults) (signFails : List Nat) :
+    Inst × List Pos :=
+  finishKeyed s keyed signFails (rulesKeyed s.db keyed f).1 (rulesKeyed s.db keyed f).2
+
 def signAtts (s : Inst) (client : String) (items : List (Addr × AttData)) (f : Faults)
     (signFails : List Nat := []) : Inst × List Pos :=
   let n := items.length
@@ -185,33 +238,13 @@ def signAtts (s : Inst) (client : String) (items : List (Addr × AttData)) (f : 
   match firstMalformed (items.map (·.2)) with
   | some i => (s, (List.range n).map (fun j => if j = i then ⟨.denied, none⟩ else ⟨.unknown, none⟩))
   | none =>
-    let pcs := items.map (fun it => preCheck s.cfg client it.1 opAttest)
-    if pcs.any (fun p => match p with | .error _ => true | .ok _ => false) then
-      (s, pcs.map (fun p => match p with | .error r => ⟨r, none⟩ | .ok _ => ⟨.unknown, none⟩))
+    let pcs := preCheckAll s.cfg client opAttest items
+    if pcs.any isErr then (s, preCheckPositions pcs)
     else
-      let accts := pcs.filterMap (fun p => match p with | .ok a => some a | .error _ => none)
-      let keys := accts.map (·.pubkey)
-      match firstDup [] 0 keys with
+      let keyed := okItems pcs
+      match firstDup [] 0 (keyed.map (·.1)) with
       | some _ => (s, items.map (fun _ => ⟨.failed, none⟩))
-      | none =>
-        let reqs := (keys.zip (items.map (·.2.req)))
-        let (vs, db') :=
-          match reqs with
-          | [(k, r)] => let (v, db') := onAttest s.db k r f; ([v], db')
-          | _ => onAttestBatch s.db reqs f
-        let s' := { s with db := db' }
-        -- signing, position by position
-        let triples := (keys.zip (items.map (·.2))).zip vs
-        let outs := (List.range n).zip triples |>.map (fun (p : Nat × ((Bytes × AttData) × Verdict)) =>
-          let i := p.1; let k := p.2.1.1; let d := p.2.1.2; let v := p.2.2
-          match v with
-          | .approved =>
-            match d.signingRoot with
-            | none => ((⟨.failed, none⟩ : Pos), (none : Option (Bytes × AttData)))
-            | some root => if signFails.contains i then (⟨.failed, none⟩, none)
-                           else (⟨.succeeded, some root⟩, some (k, d))
-          | v => (⟨verdictRes v, none⟩, none))
-        ({ s' with attLog := s'.attLog ++ outs.filterMap (·.2) }, outs.map (·.1))
+      | none => attestKeyed s keyed f signFails
 
 /-! ## Proposal: `SignBeaconProposal` -/
 
@@ -251,6 +284,19 @@ def signGeneric (s : Inst) (client ip : String) (a : Addr) (d : SignData) (signF
         else ({ s with signLog := s.signLog ++ [(acct.pubkey, d)] }, ⟨.succeeded, some root⟩)
     | v => (s, ⟨verdictRes v, none⟩)
 
+/-- rule + signing for each resolved position of a multisign request -/
+def signGenerics (adminIPs : List String) (ip : String) (signFails : List Nat) :
+    Nat → List (Bytes × SignData) → List (Pos × Option (Bytes × SignData))
+  | _, [] => []
+  | i, (k, d) :: rest =>
+    (match onSign adminIPs ip (d.domain.getD []) with
+     | .approved =>
+       match d.signingRoot with
+       | none => (⟨.failed, none⟩, none)
+       | some root => if signFails.contains i then (⟨.failed, none⟩, none)
+                      else (⟨.succeeded, some root⟩, some (k, d))
+     | v => (⟨verdictRes v, none⟩, none)) :: signGenerics adminIPs ip signFails (i + 1) rest
+
 def multisign (s : Inst) (client ip : String) (items : List (Addr × SignData)) (signFails : List Nat := []) :
     Inst × List Pos :=
   let n := items.length
@@ -258,25 +304,14 @@ def multisign (s : Inst) (client ip : String) (items : List (Addr × SignData)) 
   match (items.map (·.2)).findIdx? (fun d => !d.wellFormed) with
   | some i => (s, (List.range n).map (fun j => if j = i then ⟨.denied, none⟩ else ⟨.unknown, none⟩))
   | none =>
-    let pcs := items.map (fun it => preCheck s.cfg client it.1 opSign)
-    if pcs.any (fun p => match p with | .error _ => true | .ok _ => false) then
-      (s, pcs.map (fun p => match p with | .error r => ⟨r, none⟩ | .ok _ => ⟨.unknown, none⟩))
+    let pcs := preCheckAll s.cfg client opSign items
+    if pcs.any isErr then (s, preCheckPositions pcs)
     else
-      let accts := pcs.filterMap (fun p => match p with | .ok a => some a | .error _ => none)
-      let keys := accts.map (·.pubkey)
-      match firstDup [] 0 keys with
+      let keyed := okItems pcs
+      match firstDup [] 0 (keyed.map (·.1)) with
       | some _ => (s, items.map (fun _ => ⟨.failed, none⟩))
       | none =>
-        let triples := (List.range n).zip (keys.zip (items.map (·.2)))
-        let outs := triples.map (fun (p : Nat × (Bytes × SignData)) =>
-          let i := p.1; let k := p.2.1; let d := p.2.2
-          match onSign s.cfg.adminIPs ip (d.domain.getD []) with
-          | .approved =>
-            match d.signingRoot with
-            | none => ((⟨.failed, none⟩ : Pos), (none : Option (Bytes × SignData)))
-            | some root => if signFails.contains i then (⟨.failed, none⟩, none)
-                           else (⟨.succeeded, some root⟩, some (k, d))
-          | v => (⟨verdictRes v, none⟩, none))
+        let outs := signGenerics s.cfg.adminIPs ip signFails 0 keyed
         ({ s with signLog := s.signLog ++ outs.filterMap (·.2) }, outs.map (·.1))
 
 /-! ## Operations -/
